@@ -448,7 +448,11 @@ impl wire::Decode for ZeroBytes {
     fn decode<R: std::io::Read + ?Sized>(reader: &mut R) -> Result<Self, wire::Error> {
         let zeroes = u16::decode(reader)?;
         for _ in 0..zeroes {
-            _ = u8::decode(reader)?;
+            // N.b. the padding is only ever written as zeroes; accepting anything else would
+            // give the same message several encodings.
+            if u8::decode(reader)? != 0 {
+                return Err(wire::Error::UnexpectedBytes);
+            }
         }
         Ok(ZeroBytes::new(zeroes))
     }
